@@ -113,7 +113,7 @@ class Lsp:
         caps = {}
         if position_encodings:
             caps = {"general": {"positionEncodings": list(position_encodings)}}
-        r = self.request("initialize", {"processId": None, "rootUri": "file://" + self.root, "capabilities": caps}, timeout=20)
+        r = self.request("initialize", {"processId": None, "rootUri": "file://" + __import__("urllib.parse").parse.quote(self.root), "capabilities": caps}, timeout=20)
         self.position_encoding = "utf-16"
         try:
             self.position_encoding = r["result"]["capabilities"].get("positionEncoding") or "utf-16"
